@@ -67,7 +67,7 @@ def namespace():
     from symplyphysics.core.dimensions import dimension_to_si_unit, any_dimension  # pylint: disable=import-outside-toplevel
     return {"S": S, "I": I, "oo": oo, "nan": nan, "zoo": zoo, "pi": pi, "sqrt": sqrt, "Rational": Rational,
         "Float": Float, "u": u, "Dimension": Dimension, "Quantity": Quantity, "prefixes": prefixes,
-        "angle_type": angle_type, "QuantityVector": QuantityVector, "CoordinateSystem": symplyphysics.CoordinateSystem, "dimension_to_si_unit": dimension_to_si_unit,
+        "angle_type": angle_type, "QuantityVector": QuantityVector, "CoordinateSystem": symplyphysics.CoordinateSystem, "Max": sympy.Max, "Min": sympy.Min, "Abs": sympy.Abs, "dimension_to_si_unit": dimension_to_si_unit,
         "any_dimension": any_dimension, "SymSymbol": SymSymbol, "sympy": sympy, "symplyphysics": symplyphysics}
 
 
